@@ -5,6 +5,7 @@ def acceptHeader_query_qr0 : Nat := 0
 def applyReply_opcodes : List Nat := [32768, 34816, 36864, 38912, 40960, 43008, 45056, 47104, 49152, 51200, 53248, 55296, 57344, 59392, 61440, 63488]
 def applyReply_single_bits : List Nat := [32769, 32770, 32772, 32776, 32768, 32800, 32832, 32896, 32768, 33280, 32768, 32768, 32768, 32768, 32768, 32768]
 def applyReply_single_bits_op15_rd_cd : List Nat := [63761, 63762, 63764, 63768, 63760, 63792, 63824, 63888, 63760, 64272, 63760, 63760, 63760, 63760, 63760, 63760]
+def as112_zone_last_labels : List String := ["arpa"]
 def clearAD_single_bits : List Nat := [1, 2, 4, 8, 16, 0, 64, 128, 256, 512, 1024, 2048, 4096, 8192, 16384, 32768]
 def clientCookieHexLen : Nat := 16
 def codeCookie : Nat := 10
@@ -25,8 +26,10 @@ def flagRA : Nat := 128
 def flagRD : Nat := 256
 def flagTC : Nat := 512
 def headerLen : Nat := 12
+def maxMsgSizeLib : Nat := 65535
 def maxTextualAddrLen : Nat := 45
 def minMsgSize : Nat := 512
+def minMsgSizeLib : Nat := 512
 def optFixedLen : Nat := 11
 def optOptionHdrLen : Nat := 4
 def parsewire_cookie_lens_ok : List Nat := [8, 9, 10, 11, 12, 13, 14, 15, 16, 17, 18, 19, 20, 21, 22, 23, 24, 25, 26, 27, 28, 29, 30, 31, 32, 33, 34, 35, 36, 37, 38, 39, 40]
@@ -38,5 +41,6 @@ def parsewire_two_cookies_ok : Bool := false
 def serverCookieLen : Nat := 40
 def tcpKeepaliveUnits : Nat := 80
 def typeOPT : Nat := 41
+def wire_recomposable_types : List Nat := [1, 5, 6, 16, 28, 43, 46, 47, 50]
 
 end SdnsVerif.Gen.C05
